@@ -1,31 +1,40 @@
-"""Facts for C04 (JSON-RPC codec), read from the current /repo tree on every run:
+"""Facts for C04 (JSON-RPC codec), obtained on every run by RUNNING the codec of the current
+/repo tree (never by looking at its syntax):
 
-* the error-code constants and `allow_batches` of every protocol class (from the class objects);
-* the configuration of the one `json.dumps` call in `JSONRPC.encode_payload` (ast);
-* the byte string `batch_message_from_parts` joins with (ast);
-* the exception classes each `except` clause of `_message_to_payload` catches, closed under
-  subclassing over the model's exception universe (ast names resolved in the module's namespace,
-  `issubclass` on the real class objects);
-* class wiring that the model hard-codes (which function object each protocol class uses);
-* fingerprints of every modelled function.
+* `decode_table`   - the outcome class of the real `message_to_item` of each protocol class on a
+                     representative message of EVERY shape of the specification table
+                     (lean/Aiorpcx/C04/Classify.lean: 1152 object shapes + empty array, array,
+                     non-container; three representatives per row, the variant of each kind
+                     rotating, which must agree);
+                     `facts_decode_table` states that the table equals `classify`;
+* `encode_table`   - the payloads the real `request_message` / `notification_message` /
+                     `response_message` / `batch_message` emit on a grid of argument / id / value
+                     kinds (parsed back with json.loads), or the code of the ProtocolError raised;
+                     `facts_encode_table` states that the model's encoders produce these payloads;
+* `dumps`          - the separators of the serializer, found by re-serialising what the real
+                     encoders emit (json.dumps with candidate separators must reproduce the bytes),
+                     whether non-ASCII is escaped, and whether anything else deviates from
+                     `json.dumps(v, separators=.., ensure_ascii=True)` on a probe set (key order,
+                     indentation, NaN handling, escapes ...);
+* `batch_join`     - separator and brackets of `batch_message_from_parts` / `batch_message`, read
+                     off their output on probe parts;
+* `payload_guards` - what the real decoder does with the four failing inputs of
+                     `json.loads(message.decode())` (invalid UTF-8, invalid JSON, nesting beyond the
+                     recursion limit, an integer literal over the digit limit);
+* `detect_table`   - the class the real `detect_protocol` chose on 73 probe messages (every
+                     combination of the members it looks at, and batches mixing the classes);
+* `allow_batches`  - whether each class decodes an array / emits a batch;
+* the error-code constants (public class attributes) and AST fingerprints (drift => deeper run).
+
+Private names (`_message_to_payload`, `encode_payload`, `batch_message_from_parts`) are used when
+they exist and replaced by the public entry points when they do not; nothing here raises when a
+name is missing.
 """
-import ast
-import builtins
+import itertools
 import json
+import math
 
 from . import common
-
-# the model's exception universe: Lean constructor -> real class (protocol classes added later)
-UNIVERSE = {
-    'baseException': BaseException, 'exception': Exception, 'typeError': TypeError,
-    'valueError': ValueError, 'unicodeDecodeError': UnicodeDecodeError,
-    'jsonDecodeError': json.JSONDecodeError, 'runtimeError': RuntimeError,
-    'recursionError': RecursionError, 'lookupError': LookupError, 'keyError': KeyError,
-    'indexError': IndexError, 'attributeError': AttributeError,
-    'assertionError': AssertionError, 'memoryError': MemoryError,
-    'overflowError': OverflowError, 'stopIteration': StopIteration,
-}
-UNIVERSE_ORDER = list(UNIVERSE)
 
 MODELLED = {
     'aiorpcx/jsonrpc.py': [
@@ -44,208 +53,603 @@ MODELLED = {
         'JSONRPCAutoDetect.detect_protocol',
     ]}
 
+PROTOS = ('v1', 'v2', 'loose', 'auto')
+ABSENT = object()
 
-def universe(mod):
-    u = dict(UNIVERSE)
-    for lean, py in (('codeMessageError', 'CodeMessageError'), ('rpcError', 'RPCError'),
-                     ('protocolError', 'ProtocolError')):
-        u[lean] = getattr(mod, py)
-    return u
+# ------------------------------------------------------------------ shapes (twin of Classify.lean)
+# order of enumeration = `allShapes` in lean/Aiorpcx/C04/Table.lean: jsonrpc20 outermost, then
+# method, params, id, result, error (innermost)
+JSONRPC_K = ('no', 'yes')
+METHOD_K = ('absent', 'str', 'nonstr')
+PARAMS_K = ('absent', 'list', 'dict', 'other')
+ID_K = ('absent', 'null', 'atom', 'other')
+RES_K = ('absent', 'null', 'nonnull')
+ERR_K = ('absent', 'null', 'wf', 'other')
+
+VARIANTS = {
+    ('jsonrpc', 'no'): [ABSENT, '1.0', 2.0, '2', None, ['2.0'], True, {}],
+    ('jsonrpc', 'yes'): ['2.0'],
+    ('method', 'absent'): [ABSENT],
+    ('method', 'str'): ['m', '', 'rpc.x', '\ud800\n'],
+    ('method', 'nonstr'): [None, 5, True, ['m'], {}, 1.5],
+    ('params', 'absent'): [ABSENT],
+    ('params', 'list'): [[], [1, 'a'], [[]], [None]],
+    ('params', 'dict'): [{}, {'a': 1}, {'': []}],
+    ('params', 'other'): [None, 5, 'x', False, 1.5, ''],
+    ('id', 'absent'): [ABSENT],
+    ('id', 'null'): [None],
+    ('id', 'atom'): [1, 'x', 1.5, 0, '', -3, 10 ** 30, 1.0],
+    ('id', 'other'): [True, [1], {'a': 1}, False, [], {}],
+    ('result', 'absent'): [ABSENT],
+    ('result', 'null'): [None],
+    ('result', 'nonnull'): [0, 'r', [], {}, False, 1.5, [None]],
+    ('error', 'absent'): [ABSENT],
+    ('error', 'null'): [None],
+    ('error', 'wf'): [{'code': 1, 'message': 'm'}, {'code': True, 'message': ''},
+                      {'code': -5, 'message': 'm', 'data': [1]}, {'message': 'x', 'code': 10 ** 20}],
+    ('error', 'other'): ['e', 7, {'code': 1.0, 'message': 'm'}, {'code': 1, 'message': 5}, {},
+                         [], False, 0, '', {'code': 1}, {'message': 'm'}, {'code': None, 'message': 'm'}],
+}
+MEMBER_ORDERS = [('jsonrpc', 'method', 'params', 'id', 'result', 'error'),
+                 ('error', 'result', 'id', 'params', 'method', 'jsonrpc'),
+                 ('id', 'jsonrpc', 'error', 'method', 'result', 'params')]
+TOP_EXTRA = ('emptyArray', 'array', 'other')
+ARRAYS = [[{'jsonrpc': '2.0', 'method': 'm', 'id': 1}], [1], [[]], [None, {}],
+          [{'jsonrpc': '2.0', 'result': 1, 'id': 1}]]
+OTHERS = [None, 5, 'x', True, 1.5, '', False, 0]
 
 
-def resolve(node, namespace):
-    """ast expression naming an exception class (or a tuple of them) -> list of class objects"""
-    if node is None:
-        return [BaseException]          # bare except
-    if isinstance(node, ast.Tuple):
-        out = []
-        for e in node.elts:
-            out += resolve(e, namespace)
-        return out
-    if isinstance(node, ast.Name):
-        if node.id in namespace:
-            return [namespace[node.id]]
-        return [getattr(builtins, node.id)]
-    if isinstance(node, ast.Attribute):
-        base = resolve_value(node.value, namespace)
-        return [getattr(base, node.attr)]
-    raise ValueError('unsupported except expression: ' + ast.dump(node))
+def shapes():
+    return list(itertools.product(JSONRPC_K, METHOD_K, PARAMS_K, ID_K, RES_K, ERR_K))
 
 
-def resolve_value(node, namespace):
-    if isinstance(node, ast.Name):
-        return namespace[node.id] if node.id in namespace else getattr(builtins, node.id)
-    if isinstance(node, ast.Attribute):
-        return getattr(resolve_value(node.value, namespace), node.attr)
-    raise ValueError('unsupported expression: ' + ast.dump(node))
+def representatives(shift=0):
+    """one message per row of the table, in table order; the variant of each kind rotates (`shift`
+    moves every rotation on, so that different shifts give different representatives)"""
+    uses = {}
 
-
-def caught_set(handler_type, namespace, univ):
-    """names of the universe classes an `except <handler_type>` clause catches"""
-    classes = tuple(resolve(handler_type, namespace))
-    return [name for name, cls in univ.items() if issubclass(cls, classes)]
-
-
-def try_clauses(func_node, namespace, univ):
-    """for every `try` directly in the function (source order): list of clauses' caught sets"""
+    def pick(member, kind):
+        vs = VARIANTS[(member, kind)]
+        n = uses.get((member, kind), shift * 3)
+        uses[(member, kind)] = n + 1
+        return vs[n % len(vs)]
     out = []
-    for n in ast.walk(func_node):
-        if isinstance(n, ast.Try):
-            out.append([caught_set(h.type, namespace, univ) for h in n.handlers])
+    for n, (j, m, p, i, r, e) in enumerate(shapes()):
+        vals = {'jsonrpc': pick('jsonrpc', j), 'method': pick('method', m), 'params': pick('params', p),
+                'id': pick('id', i), 'result': pick('result', r), 'error': pick('error', e)}
+        order = MEMBER_ORDERS[(n + shift) % len(MEMBER_ORDERS)]
+        msg = {k: vals[k] for k in order if vals[k] is not ABSENT}
+        if (n + shift) % 7 == 3:
+            msg['extra'] = n            # an unknown member changes nothing
+        out.append(msg)
+    out.append([])
+    out.append(ARRAYS)                  # every variant is tried; all must agree
+    out.append(OTHERS)
     return out
 
 
-def dumps_config(tree):
-    node = common.find(tree, 'JSONRPC.encode_payload')
-    calls = []
-    for n in ast.walk(node):
-        if isinstance(n, ast.Call) and isinstance(n.func, ast.Attribute) and n.func.attr == 'dumps':
-            calls.append(n)
-    cfg = {'calls': len(calls), 'item_sep': ', ', 'key_sep': ': ', 'ensure_ascii': True,
-           'other_keywords': [], 'positional_extra': 0}
-    if len(calls) == 1:
-        c = calls[0]
-        cfg['positional_extra'] = max(0, len(c.args) - 1)
-        for kw in c.keywords:
-            if kw.arg == 'separators':
-                val = ast.literal_eval(kw.value)
-                cfg['item_sep'], cfg['key_sep'] = val[0], val[1]
-            elif kw.arg == 'ensure_ascii':
-                cfg['ensure_ascii'] = bool(ast.literal_eval(kw.value))
-            else:
-                cfg['other_keywords'].append(kw.arg or '**')
-    return cfg
+N_REPRESENTATIVES = 3
 
 
-def batch_join(tree):
-    node = common.find(tree, 'JSONRPC.batch_message_from_parts')
-    seps, wraps = [], []
-    for n in ast.walk(node):
-        if isinstance(n, ast.Call) and isinstance(n.func, ast.Attribute) and n.func.attr == 'join' \
-                and isinstance(n.func.value, ast.Constant) and isinstance(n.func.value.value, bytes):
-            seps.append(n.func.value.value)
-            if n.args and isinstance(n.args[0], ast.List):
-                wraps.append([e.value for e in n.args[0].elts
-                              if isinstance(e, ast.Constant) and isinstance(e.value, bytes)])
-    return {'separators': [list(s) for s in seps], 'wraps': [[list(w) for w in ws] for ws in wraps]}
+# outcome codes (twin of `outCode` in Table.lean)
+REQUEST, NOTIFICATION, RESULT, RPCERROR, BATCH, ERR_IR, ERR_MNF, ERR_IA, ERR_OTHER, CRASH, MIXED = range(11)
+
+
+def classes(mod):
+    return {'v1': getattr(mod, 'JSONRPCv1', None), 'v2': getattr(mod, 'JSONRPCv2', None),
+            'loose': getattr(mod, 'JSONRPCLoose', None), 'auto': getattr(mod, 'JSONRPCAutoDetect', None)}
+
+
+def decode_outcome(mod, cls, message, codes):
+    try:
+        item, _rid = cls.message_to_item(message)
+    except BaseException as e:      # noqa: the exception type is the observation
+        if isinstance(e, (KeyboardInterrupt, SystemExit)):
+            raise
+        if isinstance(e, getattr(mod, 'ProtocolError', ())):
+            return {codes.get('INVALID_REQUEST'): ERR_IR, codes.get('METHOD_NOT_FOUND'): ERR_MNF,
+                    codes.get('INVALID_ARGS'): ERR_IA}.get(getattr(e, 'code', None), ERR_OTHER)
+        return CRASH
+    if isinstance(item, list):
+        return BATCH
+    if isinstance(item, getattr(mod, 'Request', ())):
+        return REQUEST
+    if isinstance(item, getattr(mod, 'Notification', ())):
+        return NOTIFICATION
+    if isinstance(item, getattr(mod, 'Response', ())):
+        r = getattr(item, 'result', None)
+        if isinstance(r, getattr(mod, 'RPCError', ())):
+            return RPCERROR
+        if isinstance(r, Exception):
+            return CRASH
+        return RESULT
+    return CRASH
+
+
+def wire(v):
+    return json.dumps(v, separators=(',', ':')).encode()
+
+
+def decode_table(mod, codes):
+    """per class: the outcome code of every row; N_REPRESENTATIVES different representatives of a
+    row are decoded and must agree (otherwise the row reads MIXED, which no specification row is)"""
+    reps = [representatives(k) for k in range(N_REPRESENTATIVES)]
+    table = {}
+    for pn, cls in classes(mod).items():
+        col = []
+        for row in range(len(reps[0]) - 2):
+            got = {CRASH if cls is None else decode_outcome(mod, cls, wire(r[row]), codes) for r in reps}
+            col.append(got.pop() if len(got) == 1 else MIXED)
+        for group in reps[0][-2:]:
+            got = {CRASH if cls is None else decode_outcome(mod, cls, wire(v), codes) for v in group}
+            col.append(got.pop() if len(got) == 1 else MIXED)
+        table[pn] = col
+    return table
+
+
+# ------------------------------------------------------------------ encoders
+ENC_ARGS = [[], (), {}, [1, 'a'], {'a': 1}, [[]], [0], {'': None}]
+ENC_IDS = [7, 'x', 1.5, 0, '']
+ENC_VALUES = [None, 0, [], {}, 'r', [None], {'a': {}}, False]
+ENC_RESP_IDS = [7, None, 'x', 0]
+ENC_ERRORS = [(-32601, 'm'), (0, ''), (5, 'x\n')]
+
+
+def parsed(b):
+    return json.loads(b.decode())
+
+
+def enc_outcome(mod, f):
+    try:
+        b = f()
+    except BaseException as e:     # noqa
+        if isinstance(e, (KeyboardInterrupt, SystemExit)):
+            raise
+        if isinstance(e, getattr(mod, 'ProtocolError', ())):
+            return ('pe', getattr(e, 'code', None))
+        return ('exc', type(e).__name__)
+    try:
+        return ('ok', parsed(b))
+    except Exception as e:      # noqa
+        return ('exc', 'unparsable:' + type(e).__name__)
+
+
+def encode_table(mod):
+    rows = []
+    for pn, cls in classes(mod).items():
+        if cls is None:
+            continue
+        for args in ENC_ARGS:
+            for rid in ENC_IDS[:2] if args not in ([], {}) else ENC_IDS:
+                rows.append({'p': pn, 'kind': 'req', 'method': 'm', 'args': args, 'id': rid,
+                             'out': enc_outcome(mod, lambda: cls.request_message(mod.Request('m', args), rid))})
+            rows.append({'p': pn, 'kind': 'req', 'method': 'n', 'args': args, 'id': None,
+                         'out': enc_outcome(mod, lambda: cls.notification_message(mod.Notification('n', args)))})
+        for k, v in enumerate(ENC_VALUES):
+            rid = ENC_RESP_IDS[k % len(ENC_RESP_IDS)]
+            rows.append({'p': pn, 'kind': 'res', 'value': v, 'id': rid,
+                         'out': enc_outcome(mod, lambda: cls.response_message(v, rid))})
+        for k, (code, msg) in enumerate(ENC_ERRORS):
+            rid = ENC_RESP_IDS[k % len(ENC_RESP_IDS)]
+            for exc in ('RPCError', 'ProtocolError'):
+                rows.append({'p': pn, 'kind': 'err', 'code': code, 'message': msg, 'id': rid,
+                             'out': enc_outcome(mod, lambda: cls.response_message(getattr(mod, exc)(code, msg), rid))})
+        # a batch: request, notification, request
+        members = [('R', 'a', [], 0), ('N', 'b', {}), ('R', 'c', [1], 'x')]
+        items = [mod.Request(m[1], m[2]) if m[0] == 'R' else mod.Notification(m[1], m[2]) for m in members]
+        rows.append({'p': pn, 'kind': 'batch', 'members': members,
+                     'out': enc_outcome(mod, lambda: cls.batch_message(mod.Batch(items), [0, 'x']))})
+    return rows
+
+
+# ------------------------------------------------------------------ serializer configuration
+ITEM_SEPS = [',', ', ', ' ,', ' , ', ',\t', ',  ']
+KEY_SEPS = [':', ': ', ' :', ' : ', ':\t', ':  ']
+DUMP_PROBES = [
+    {'b': [1, 2, {'c': None}], 'a': {'x': {}, 'y': []}},
+    {'z': 1, 'a': 2, 'm': 3},                       # key order (sort_keys)
+    [[], {}, [[]], [{}], '', 0, -0, True, False, None],
+    ['"', '\\', '/', '\n', '\r', '\t', '\x08', '\x0c', '\x00', '\x1f', '\x7f', ' ', '~'],
+    ['\x80', 'é', ' ', ' ', '￿', '\U00010000', '\U0010ffff', '\ud800', '\udfff', 'a\ud800b'],
+    [0, -1, 10 ** 30, -10 ** 30, 2 ** 64],
+    [1.5, 1e22, 1e-7, -0.0, 1.0, 5e-324, 1.7976931348623157e308],
+    [float('nan'), float('inf'), float('-inf')],
+    (1, (2, 3)),
+]
+
+
+def emitters(mod):
+    """the ways a value reaches the wire: [(label, value -> bytes)]"""
+    out = []
+    J = getattr(mod, 'JSONRPC', None)
+    if J is not None and hasattr(J, 'encode_payload'):
+        out.append(('encode_payload', lambda v: J.encode_payload(v)))
+    for pn, cls in classes(mod).items():
+        if cls is None:
+            continue
+        out.append((pn + '.response_message', lambda v, cls=cls: cls.response_message(v, 1)))
+        if pn != 'v1':
+            out.append((pn + '.request_message',
+                        lambda v, cls=cls: cls.request_message(mod.Request('m', [v]), 1)))
+    return out
+
+
+def redump(b, item_sep, key_sep, ensure_ascii):
+    v = json.loads(b.decode())
+    return json.dumps(v, separators=(item_sep, key_sep), ensure_ascii=ensure_ascii).encode()
+
+
+def dumps_config(mod):
+    em = emitters(mod)
+    outs = []          # (label, probe index, bytes | None)
+    for label, f in em:
+        for i, v in enumerate(DUMP_PROBES):
+            try:
+                b = f(v)
+                outs.append((label, i, b if isinstance(b, bytes) else None))
+            except BaseException as e:     # noqa
+                if isinstance(e, (KeyboardInterrupt, SystemExit)):
+                    raise
+                outs.append((label, i, None))
+    good = [b for (_l, _i, b) in outs if b is not None]
+    ascii_only = bool(good) and all(all(c < 128 for c in b) for b in good)
+    found = None
+    for isep in ITEM_SEPS:
+        for ksep in KEY_SEPS:
+            try:
+                if good and all(redump(b, isep, ksep, True) == b for b in good[:len(DUMP_PROBES)]):
+                    found = (isep, ksep)
+                    break
+            except Exception:      # noqa
+                pass
+        if found:
+            break
+    isep, ksep = found or (',', ':')
+    deviations = []
+    for (label, i, b) in outs:
+        if b is None:
+            deviations.append(f'{label} probe {i}: raised')
+            continue
+        try:
+            ok = redump(b, isep, ksep, True) == b
+            # the emitted text means the probe (nothing dropped, reordered or converted)
+            want = json.dumps(DUMP_PROBES[i], separators=(isep, ksep), ensure_ascii=True)
+            ok = ok and want.encode() in b
+        except Exception as e:      # noqa
+            ok = False
+        if not ok:
+            deviations.append(f'{label} probe {i}: differs from json.dumps(v, separators={isep!r},{ksep!r})')
+    return {'item_sep': isep, 'key_sep': ksep, 'separators_found': found is not None,
+            'ensure_ascii': ascii_only, 'deviations': deviations[:6], 'n_deviations': len(deviations),
+            'emitters': [l for l, _f in em]}
+
+
+# ------------------------------------------------------------------ batch framing
+def batch_join(mod):
+    probes = [[b'1'], [b'1', b'2'], [b'"a, b"', b'[1, 2]', b'{}'], [b'{"x":[1,2]}'] * 4]
+    seps, wrap_ok, tried = set(), True, 0
+
+    def look(parts, out):
+        nonlocal wrap_ok
+        if not isinstance(out, bytes) or not out.startswith(b'[' + parts[0]) or not out.endswith(parts[-1] + b']'):
+            wrap_ok = False
+            return
+        rest = out[1:-1]
+        for k, p in enumerate(parts):
+            if not rest.startswith(p):
+                wrap_ok = False
+                return
+            rest = rest[len(p):]
+            if k + 1 < len(parts):
+                nxt = parts[k + 1]
+                j = rest.find(nxt)
+                # the separator is what stands before the next part (parts are chosen so that no
+                # part is a prefix-ambiguous substring of a blank/comma separator)
+                if j < 0:
+                    wrap_ok = False
+                    return
+                seps.add(rest[:j])
+                rest = rest[j:]
+        if rest:
+            wrap_ok = False
+    J = getattr(mod, 'JSONRPC', None)
+    f = getattr(J, 'batch_message_from_parts', None)
+    if f is not None:
+        for parts in probes:
+            for mk in (list, iter):
+                try:
+                    look(parts, f(mk(parts)))
+                    tried += 1
+                except BaseException as e:     # noqa
+                    if isinstance(e, (KeyboardInterrupt, SystemExit)):
+                        raise
+                    wrap_ok = False
+    # public route: batch_message of real items
+    for pn, cls in classes(mod).items():
+        if cls is None or pn == 'v1':
+            continue
+        try:
+            items = [mod.Request('a', []), mod.Notification('b', {}), mod.Request('c', [1, 2])]
+            parts = [cls.request_message(items[0], 0), cls.notification_message(items[1]),
+                     cls.request_message(items[2], 'x')]
+            look(parts, cls.batch_message(mod.Batch(items), [0, 'x']))
+            look(parts[:1], cls.batch_message(mod.Batch(items[:1]), [0]))
+            tried += 2
+        except BaseException as e:     # noqa
+            if isinstance(e, (KeyboardInterrupt, SystemExit)):
+                raise
+            wrap_ok = False
+    sep = next(iter(seps)) if len(seps) == 1 else b''
+    return {'separator': list(sep), 'distinct_separators': len(seps),
+            'wrap_is_brackets': bool(wrap_ok and tried and len(seps) == 1), 'probes': tried}
+
+
+# ------------------------------------------------------------------ failing json.loads outcomes
+LOADS_FAILURES = [('unicodeDecodeError', b'{"a":"\xff"}'), ('jsonDecodeError', b'{"a":'),
+                  ('recursionError', b'[' * 200000), ('valueError', b'[' + b'1' * 5000 + b']')]
+
+
+def payload_guards(mod, codes):
+    """-> {lean exception constructor: 'parse-error' | 'escapes:<Type>' | 'other:<..>'} for the
+    decoder of every class (they must agree)"""
+    table = {}
+    for lean, message in LOADS_FAILURES:
+        seen = set()
+        for pn, cls in classes(mod).items():
+            if cls is None:
+                continue
+            for fname in ('_message_to_payload', 'message_to_item'):
+                f = getattr(cls, fname, None)
+                if f is None:
+                    continue
+                try:
+                    f(message)
+                    seen.add('other:returned')
+                except BaseException as e:     # noqa
+                    if isinstance(e, (KeyboardInterrupt, SystemExit)):
+                        raise
+                    if isinstance(e, getattr(mod, 'ProtocolError', ())):
+                        if getattr(e, 'code', None) == codes.get('PARSE_ERROR') and \
+                                getattr(e, 'error_message', None) is not None:
+                            seen.add('parse-error')
+                        else:
+                            seen.add(f'other:ProtocolError({getattr(e, "code", None)})')
+                    else:
+                        seen.add('escapes:' + type(e).__name__)
+        table[lean] = seen.pop() if len(seen) == 1 else 'mixed:' + ','.join(sorted(seen))
+    return table
+
+
+def allow_batches(mod):
+    out = {}
+    arr = wire([{'jsonrpc': '2.0', 'method': 'm', 'id': 1, 'params': []}])
+    for pn, cls in classes(mod).items():
+        dec = enc = None
+        if cls is not None:
+            try:
+                item, _ = cls.message_to_item(arr)
+                dec = isinstance(item, list)
+            except Exception:      # noqa
+                dec = False
+            try:
+                cls.batch_message(mod.Batch([mod.Request('m', [])]), [1])
+                enc = True
+            except Exception:      # noqa
+                enc = False
+        out[pn] = {'decodes': dec, 'encodes': enc}
+    return out
+
+
+# ------------------------------------------------------------------ auto-detection
+def detect_probes():
+    out = []
+    for j in (ABSENT, '2.0', '1.0', 2.0, '2', None):
+        for has_r in (False, True):
+            for has_e in (False, True):
+                for has_m in (False, True):
+                    p = {}
+                    if has_m:
+                        p['method'] = 'm'
+                    if j is not ABSENT:
+                        p['jsonrpc'] = j
+                    if has_r:
+                        p['result'] = None if has_e else 1
+                    if has_e:
+                        p['error'] = None
+                    p['id'] = 1
+                    out.append(p)
+    v2 = {'jsonrpc': '2.0', 'method': 'm', 'id': 1}
+    v1 = {'result': 1, 'error': None, 'id': 1}
+    v1b = {'jsonrpc': '1.0', 'method': 'm', 'params': [], 'id': 1}
+    lo = {'method': 'm', 'id': 1}
+    out += [5, 'x', None, True, 1.5, [], [v2], [v1], [v1b], [lo], [v2, v2], [v2, v1], [v1, v2], [v1, lo],
+            [lo, v1], [lo, v2], [v2, lo], [lo, lo], [5], [v1, 5], [5, v2], [lo, 5, v1], [[]], [v1, v1b],
+            [lo, lo, v2, v1]]
+    return out
+
+
+def detect_table(mod):
+    rows = []
+    auto = getattr(mod, 'JSONRPCAutoDetect', None)
+    names = {v: k for k, v in classes(mod).items() if v is not None and k != 'auto'}
+    for p in detect_probes():
+        try:
+            got = names.get(auto.detect_protocol(wire(p)), 'other')
+        except BaseException as e:      # noqa
+            if isinstance(e, (KeyboardInterrupt, SystemExit)):
+                raise
+            got = 'raises'
+        rows.append({'payload': p, 'out': got})
+    return rows
 
 
 def extract(repo):
     mod = common.fresh_import(repo, 'aiorpcx.jsonrpc')
-    tree = common.parse(repo, 'aiorpcx/jsonrpc.py')
-    univ = universe(mod)
-    ns = vars(mod)
-    J, v1, v2, loose, auto = (mod.JSONRPC, mod.JSONRPCv1, mod.JSONRPCv2, mod.JSONRPCLoose,
-                              mod.JSONRPCAutoDetect)
-    codes = {k: getattr(J, k) for k in ('PARSE_ERROR', 'INVALID_REQUEST', 'METHOD_NOT_FOUND',
-                                        'INVALID_ARGS', 'INTERNAL_ERROR',
-                                        'ERROR_CODE_UNAVAILABLE')}
-    per_class_codes_same = all(getattr(c, k) == v for c in (v1, v2, loose, auto)
+    J = getattr(mod, 'JSONRPC', None)
+    names = ('PARSE_ERROR', 'INVALID_REQUEST', 'METHOD_NOT_FOUND', 'INVALID_ARGS', 'INTERNAL_ERROR',
+             'ERROR_CODE_UNAVAILABLE')
+    codes = {k: getattr(J, k, None) for k in names}
+    per_class_codes_same = all(getattr(c, k, None) == v for c in classes(mod).values()
                                for k, v in codes.items())
-
-    def fn(cls, name):
-        return getattr(cls, name).__func__ if hasattr(getattr(cls, name), '__func__') \
-            else getattr(cls, name)
-
-    wiring = {
-        # Loose borrows from v2 / the base class exactly as the model assumes
-        'loose_message_id_is_v2': fn(loose, '_message_id') is fn(v2, '_message_id'),
-        'loose_validate_is_base': fn(loose, '_validate_message') is fn(J, '_validate_message'),
-        'loose_request_args_is_v2': fn(loose, '_request_args') is fn(v2, '_request_args'),
-        'loose_payloads_are_v2': all(fn(loose, n) is fn(v2, n) for n in
-                                     ('error_payload', 'request_payload', 'response_payload')),
-        'v1_validate_is_base': fn(v1, '_validate_message') is fn(J, '_validate_message'),
-        'auto_is_v2': all(fn(auto, n) is fn(v2, n) for n in
-                          ('_message_id', '_validate_message', '_request_args', 'response_value',
-                           'error_payload', 'request_payload', 'response_payload')),
-        'shared_base_methods': all(fn(c, n) is fn(J, n) for c in (v1, v2, loose, auto) for n in
-                                   ('_process_request', '_process_response',
-                                    '_message_to_payload', '_error', 'message_to_item',
-                                    'request_message', 'notification_message',
-                                    'response_message', 'batch_message',
-                                    'batch_message_from_parts', 'encode_payload')),
-        'number_abc': [t.__name__ for t in (bool, int, float, str, list, dict, type(None))
-                       if issubclass(t, ns['Number'])],
-    }
-    clauses = try_clauses(common.find(tree, 'JSONRPC._message_to_payload'), ns, univ)
-    enc_clauses = try_clauses(common.find(tree, 'JSONRPC.encode_payload'), ns, univ)
     return {
         'codes': codes,
         'codes_same_on_every_class': per_class_codes_same,
-        'allow_batches': {'v1': bool(v1.allow_batches), 'v2': bool(v2.allow_batches),
-                          'loose': bool(loose.allow_batches), 'auto': bool(auto.allow_batches)},
-        'dumps': dumps_config(tree),
-        'batch_join': batch_join(tree),
-        'payload_try': clauses,
-        'encode_try': enc_clauses,
-        'wiring': wiring,
+        'allow_batches': allow_batches(mod),
+        'dumps': dumps_config(mod),
+        'batch_join': batch_join(mod),
+        'payload_guards': payload_guards(mod, codes),
+        'decode_table': decode_table(mod, codes),
+        'encode_table': encode_table(mod),
+        'detect_table': detect_table(mod),
         'fingerprints': common.fingerprints(repo, MODELLED),
     }
 
 
+# ------------------------------------------------------------------ rendering
 def lean_chars(s):
     return '[' + ', '.join(f'Char.ofNat {ord(c)}' for c in s) + ']'
-
-
-def lean_excs(names):
-    order = {n: i for i, n in enumerate(UNIVERSE_ORDER + ['codeMessageError', 'rpcError',
-                                                          'protocolError'])}
-    return '[' + ', '.join('.' + n for n in sorted(names, key=lambda n: order[n])) + ']'
 
 
 def lean_bool(b):
     return 'true' if b else 'false'
 
 
+def lean_int(i):
+    return str(i) if isinstance(i, int) and not isinstance(i, bool) else '0'
+
+
+def lean_str(s):
+    return '[' + ', '.join(str(ord(c)) for c in s) + ']'
+
+
+def lean_float(x):
+    if x != x:
+        return '.nan'
+    if x in (math.inf, -math.inf):
+        return '(.inf ' + lean_bool(x < 0) + ')'
+    if x == 0:
+        return '.negZero' if math.copysign(1.0, x) < 0 else '(.fin 0 0)'
+    n, d = x.as_integer_ratio()
+    e = -(d.bit_length() - 1)
+    while n % 2 == 0:
+        n //= 2
+        e += 1
+    return f'(.fin ({n}) ({e}))'
+
+
+def lean_J(v):
+    if v is None:
+        return '.null'
+    if v is True or v is False:
+        return f'(.bool {lean_bool(v)})'
+    if type(v) is int:
+        return f'(.int ({v}))'
+    if type(v) is float:
+        return f'(.float {lean_float(v)})'
+    if type(v) is str:
+        return f'(.str {lean_str(v)})'
+    if type(v) in (list, tuple):
+        return '(.arr [' + ', '.join(lean_J(x) for x in v) + '])'
+    if type(v) is dict:
+        return '(.obj [' + ', '.join(f'({lean_str(k)}, {lean_J(x)})' for k, x in v.items()) + '])'
+    raise TypeError(type(v).__name__)
+
+
+def lean_out(out):
+    """EncOut literal"""
+    if out[0] == 'ok':
+        try:
+            return f'(.payload {lean_J(out[1])})'
+        except TypeError:
+            return '.crash'
+    if out[0] == 'pe' and isinstance(out[1], int) and not isinstance(out[1], bool):
+        return f'(.protocolError ({out[1]}))'
+    return '.crash'
+
+
+def lean_enc_row(r):
+    p = '.' + r['p']
+    if r['kind'] == 'req':
+        return f'.req {p} {lean_str(r["method"])} {lean_J(r["args"])} {lean_J(r["id"])} {lean_out(r["out"])}'
+    if r['kind'] == 'res':
+        return f'.res {p} {lean_J(r["value"])} {lean_J(r["id"])} {lean_out(r["out"])}'
+    if r['kind'] == 'err':
+        return f'.err {p} {lean_J(r["code"])} {lean_J(r["message"])} {lean_J(r["id"])} {lean_out(r["out"])}'
+    ms = ', '.join((f'.request {lean_str(m[1])} {lean_J(m[2])} {lean_J(m[3])}' if m[0] == 'R'
+                    else f'.notification {lean_str(m[1])} {lean_J(m[2])}') for m in r['members'])
+    return f'.batch {p} [{ms}] {lean_out(r["out"])}'
+
+
+GUARD_ORDER = ('unicodeDecodeError', 'jsonDecodeError', 'recursionError', 'valueError')
+
+
 def render(f):
     d = f['dumps']
-    pt = f['payload_try']
-    # exactly one try with two clauses is what the model mirrors; anything else is rendered as
-    # "catches nothing", which makes the proof obligations over these facts fail
-    if len(pt) == 1 and len(pt[0]) == 2:
-        c1, c2 = pt[0]
-    elif len(pt) == 1 and len(pt[0]) == 1:
-        c1, c2 = pt[0][0], []
-    else:
-        c1, c2 = [], []
-    bj = f['batch_join']
-    sep = bj['separators'][0] if len(bj['separators']) == 2 else []
-    # the join with b'' of [b'[', middle, b']'] is the second join
-    wrap_ok = len(bj['separators']) == 2 and bj['separators'][1] == [] and \
-        [w for w in bj['wraps'] if w] == [[[91], [93]]]
-    w = f['wiring']
-    wiring_ok = all(v for k, v in w.items() if k != 'number_abc') and \
-        w['number_abc'] == ['bool', 'int', 'float']
     c = f['codes']
     ab = f['allow_batches']
-    return (
-        'import Aiorpcx.C04.Model\n'
-        '/-! GENERATED by tools/facts/c04.py from /repo on every run - do not edit. -/\n'
-        'namespace Aiorpcx.Facts.C04\n'
-        'open Aiorpcx.Py Aiorpcx.C04\n'
-        f'def parseError : Int := {c["PARSE_ERROR"]}\n'
-        f'def invalidRequest : Int := {c["INVALID_REQUEST"]}\n'
-        f'def methodNotFound : Int := {c["METHOD_NOT_FOUND"]}\n'
-        f'def invalidArgs : Int := {c["INVALID_ARGS"]}\n'
-        f'def internalError : Int := {c["INTERNAL_ERROR"]}\n'
-        f'def errorCodeUnavailable : Int := {c["ERROR_CODE_UNAVAILABLE"]}\n'
-        f'def codesSameOnEveryClass : Bool := {lean_bool(f["codes_same_on_every_class"])}\n'
-        f'/-- `allow_batches` of JSONRPCv1, v2, Loose, AutoDetect -/\n'
-        f'def allowBatches : Proto → Bool\n'
-        f'  | .v1 => {lean_bool(ab["v1"])} | .v2 => {lean_bool(ab["v2"])}'
-        f' | .loose => {lean_bool(ab["loose"])} | .auto => {lean_bool(ab["auto"])}\n'
-        '/-- the `json.dumps(payload, …)` call in `encode_payload` -/\n'
-        'def dumpCfg : DumpCfg :=\n'
-        f'  {{ itemSep := {lean_chars(d["item_sep"])}, keySep := {lean_chars(d["key_sep"])},\n'
-        f'    ensureAscii := {lean_bool(d["ensure_ascii"])},\n'
-        f'    otherKeywords := {lean_bool(bool(d["other_keywords"]) or d["positional_extra"] > 0 or d["calls"] != 1)} }}\n'
-        '/-- `b\', \'.join(messages)` wrapped in `[` `]` by `batch_message_from_parts` -/\n'
-        f'def batchJoin : List Char := {lean_chars(bytes(sep).decode("latin-1"))}\n'
-        f'def batchWrapIsBrackets : Bool := {lean_bool(wrap_ok)}\n'
-        '/-- classes caught by the `except` clauses of `_message_to_payload` (closed under subclassing) -/\n'
-        'def payloadGuards : PayloadGuards :=\n'
-        f'  {{ clause1 := {lean_excs(c1)},\n    clause2 := {lean_excs(c2)} }}\n'
-        '/-- Loose/AutoDetect/v1 reuse exactly the function objects the model assumes, and\n'
-        '`numbers.Number` admits exactly bool, int, float among the JSON types -/\n'
-        f'def classWiringAsModelled : Bool := {lean_bool(wiring_ok)}\n'
-        'end Aiorpcx.Facts.C04\n')
+    bj = f['batch_join']
+    pg = f['payload_guards']
+    caught = [g for g in GUARD_ORDER if pg.get(g) == 'parse-error']
+
+    def ab_val(pn):
+        a = ab.get(pn) or {}
+        return lean_bool(bool(a.get('decodes')) and bool(a.get('encodes')))
+    ab_consistent = all((ab.get(pn) or {}).get('decodes') == (ab.get(pn) or {}).get('encodes')
+                        and (ab.get(pn) or {}).get('decodes') is not None for pn in PROTOS)
+    dt = f['decode_table']
+    lines = [
+        'import Aiorpcx.C04.Table',
+        '/-! GENERATED by tools/facts/c04.py by running the codec of /repo on every run - do not edit. -/',
+        'namespace Aiorpcx.Facts.C04',
+        'open Aiorpcx.Py Aiorpcx.C04',
+        f'def parseError : Int := {lean_int(c["PARSE_ERROR"])}',
+        f'def invalidRequest : Int := {lean_int(c["INVALID_REQUEST"])}',
+        f'def methodNotFound : Int := {lean_int(c["METHOD_NOT_FOUND"])}',
+        f'def invalidArgs : Int := {lean_int(c["INVALID_ARGS"])}',
+        f'def internalError : Int := {lean_int(c["INTERNAL_ERROR"])}',
+        f'def errorCodeUnavailable : Int := {lean_int(c["ERROR_CODE_UNAVAILABLE"])}',
+        f'def codesSameOnEveryClass : Bool := {lean_bool(f["codes_same_on_every_class"])}',
+        '/-- does the class decode an array as a batch and emit batches (observed on a probe) -/',
+        'def allowBatches : Proto → Bool',
+        f'  | .v1 => {ab_val("v1")} | .v2 => {ab_val("v2")} | .loose => {ab_val("loose")} | .auto => {ab_val("auto")}',
+        '/-- decoder and encoder of every class agree on whether batches exist -/',
+        f'def allowBatchesConsistent : Bool := {lean_bool(ab_consistent)}',
+        '/-- the serializer configuration observed on the bytes the encoders emit: re-serialising',
+        'them with `json.dumps(v, separators=(itemSep, keySep), ensure_ascii=True)` reproduces them;',
+        '`otherKeywords` = some probe deviates (key order, indentation, NaN refused, non-ASCII raw, …) -/',
+        'def dumpCfg : DumpCfg :=',
+        f'  {{ itemSep := {lean_chars(d["item_sep"])}, keySep := {lean_chars(d["key_sep"])},',
+        f'    ensureAscii := {lean_bool(d["ensure_ascii"])},',
+        f'    otherKeywords := {lean_bool(d["n_deviations"] > 0 or not d["separators_found"])} }}',
+        '/-- what stands between the member messages of a batch, and whether the whole is',
+        '`[` members `]` (observed on `batch_message_from_parts` / `batch_message` outputs) -/',
+        f'def batchJoin : List Char := {lean_chars(bytes(bj["separator"]).decode("latin-1"))}',
+        f'def batchWrapIsBrackets : Bool := {lean_bool(bj["wrap_is_brackets"])}',
+        '/-- the failing outcomes of `json.loads(message.decode())` that the decoder turns into a',
+        'PARSE_ERROR ProtocolError carrying a reply (observed by feeding invalid UTF-8, invalid JSON,',
+        '200000 nested brackets and a 5000-digit integer to the real decoder) -/',
+        'def payloadGuards : PayloadGuards :=',
+        '  { clause1 := [' + ', '.join('.' + g for g in caught) + '],',
+        '    clause2 := [] }',
+        '/-- outcome class (`outCode`) of the real `message_to_item` on a representative message of',
+        'every row of `allTops`, per protocol class -/',
+        'def decodeTable : Proto → List Nat',
+    ]
+    for pn in PROTOS:
+        lines.append(f'  | .{pn} => [' + ', '.join(str(x) for x in dt.get(pn, [])) + ']')
+    lines.append('/-- what the real encoders emitted on the probe grid -/')
+    lines.append('def encodeTable : List EncRow := [')
+    rows = f['encode_table']
+    for k, r in enumerate(rows):
+        lines.append('  ' + lean_enc_row(r) + (',' if k + 1 < len(rows) else ''))
+    lines.append(']')
+    lines.append('/-- what the real `detect_protocol` chose on the probe messages (`none`: it raised or chose '
+                 'something else) -/')
+    lines.append('def detectTable : List (J × Option Proto) := [')
+    drows = f['detect_table']
+    for k, r in enumerate(drows):
+        out = f'(some .{r["out"]})' if r['out'] in ('v1', 'v2', 'loose') else 'none'
+        lines.append(f'  ({lean_J(r["payload"])}, {out})' + (',' if k + 1 < len(drows) else ''))
+    lines.append(']')
+    lines.append('end Aiorpcx.Facts.C04')
+    return '\n'.join(lines) + '\n'
